@@ -67,7 +67,8 @@ def first_failure(res, prop, clause=None):
 
 
 def write_replay(world, prop, case, failure, tier, verif_seed, scratch, reproduced):
-    os.makedirs(os.path.join(VERIF, "replays"), exist_ok=True)
+    rdir = os.environ.get("VERIF_REPLAY_DIR") or os.path.join(VERIF, "replays")
+    os.makedirs(rdir, exist_ok=True)
     doc = dict(case)
     doc.update({
         "format": 1, "property": prop, "clause": failure["clause"], "signature": failure["signature"],
@@ -76,7 +77,7 @@ def write_replay(world, prop, case, failure, tier, verif_seed, scratch, reproduc
         "failure": {k: failure.get(k) for k in ("op", "op_id", "expected", "observed", "detail")},
         "reproduced": reproduced,
     })
-    path = os.path.join(VERIF, "replays", "%s-%s-%d.json" % (prop, failure["clause"].split(".", 1)[-1], case.get("run_seed", 0)))
+    path = os.path.join(rdir, "%s-%s-%d.json" % (prop, failure["clause"].split(".", 1)[-1], case.get("run_seed", 0)))
     with open(path, "w") as fh:
         json.dump(doc, fh, indent=1, sort_keys=True, default=kernel._default)
         fh.write("\n")
@@ -228,7 +229,12 @@ def run_check(world, prop, tier, verif_seed, level, rule, assumptions, scale=1.0
             json.dump(doc, fh, indent=1, sort_keys=True)
             fh.write("\n")
         entry = {"clause": clause, "signature": f1["signature"], "runs_failing": len(members), "replay": path, "minimised": mini.get("minimised")}
-        if kf is not None:
+        dup = next((e for e in violations + known_hits if e["clause"] == clause and e["signature"] == f1["signature"]), None)
+        if dup is not None:
+            # same clause and same minimised signature as a group already reported
+            dup["runs_failing"] += len(members)
+            os.remove(path)
+        elif kf is not None:
             known_hits.append(dict(entry, what=kf.get("what")))
             os.remove(path)  # known findings keep their committed description, not a fresh replay each run
         else:
